@@ -81,8 +81,15 @@ def stats_entries(g, L, known, grid):
 def job_stats(job):
     seed, directed, calls, lab, known, grid = job
     rng = random.Random(seed)
-    lines, g, L, known, grid = drivers.make_trace(directed, True, calls, labeling=lab, rng=rng, known=known, grid=grid,
+    # a seeded share of the jobs asks for the statistics of the same object twice (after a prefix of its history, then
+    # at the end): a statistic may never depend on what an earlier call computed
+    k = rng.randint(1, len(calls) - 1) if len(calls) >= 2 and rng.random() < 0.4 else len(calls)
+    lines, g, L, known, grid = drivers.make_trace(directed, True, calls[:k], labeling=lab, rng=rng, known=known, grid=grid,
                                                   ret_obj=True)
+    if k < len(calls):
+        lines.append({"op": "stats", "fork": False, "res": "ok", "obs": core.observe(g, L, known, grid),
+                      "es": stats_entries(g, L, known, grid)})
+        drivers.extend_trace(lines, g, L, calls[k:], known, grid, rng)
     # keep only the last observation: the statistics are judged on the final state
     lines.append({"op": "stats", "fork": False, "res": "ok", "obs": core.observe(g, L, known, grid),
                   "es": stats_entries(g, L, known, grid)})
